@@ -30,6 +30,7 @@ import (
 	"go/types"
 	"math"
 	"regexp"
+	"sort"
 	"strconv"
 	"strings"
 
@@ -37,12 +38,12 @@ import (
 )
 
 type RoundTrip struct {
-	Name   string
-	Props  []string
-	Enc    string
-	Dec    string
-	Unroll int
-	Where  string
+	Name     string
+	Props    []string
+	Enc      string
+	Dec      string
+	Unroll   int
+	WherePos string
 	// Longest: an argument value whose encoding must have the maximal length
 	// (`unroll` bytes); with the unwinding assertion this makes it an upper
 	// bound of every encoding's length.
@@ -50,6 +51,16 @@ type RoundTrip struct {
 	// MaxLen: precondition on the length of a string argument (the wire format
 	// carries lengths as int32).
 	MaxLen *int64
+	// Where: preconditions `where NAME in v1,v2,...` / `where NAME in lo..hi` on an
+	// integer argument of the encoder or on an integer field of the receiver
+	Where []rtWhere
+}
+
+type rtWhere struct {
+	Name   string
+	Vals   []int64
+	Lo, Hi int64
+	Range  bool
 }
 
 var endianRe = regexp.MustCompile(`^\(encoding/binary\.(little|big)Endian\)\.(Put)?Uint(16|32|64)$`)
@@ -62,12 +73,36 @@ func parseRoundTrip(head, body, where string) (*RoundTrip, error) {
 		props = strings.Split(strings.Trim(head[b:], "[]"), ",")
 		head = strings.TrimSpace(head[:b])
 	}
+	parts := strings.Split(strings.TrimSpace(body), " where ")
+	body = parts[0]
+	var wheres []rtWhere
+	for _, w := range parts[1:] {
+		f := strings.Fields(w)
+		if len(f) != 3 || f[1] != "in" {
+			return nil, fmt.Errorf("%s: roundtrip: want `where NAME in v1,v2,...` or `where NAME in lo..hi`", where)
+		}
+		wc := rtWhere{Name: f[0]}
+		if i := strings.Index(f[2], ".."); i > 0 {
+			wc.Range = true
+			wc.Lo, _ = strconv.ParseInt(f[2][:i], 10, 64)
+			wc.Hi, _ = strconv.ParseInt(f[2][i+2:], 10, 64)
+		} else {
+			for _, v := range strings.Split(f[2], ",") {
+				n, err := strconv.ParseInt(v, 10, 64)
+				if err != nil {
+					return nil, fmt.Errorf("%s: roundtrip: where: %v", where, err)
+				}
+				wc.Vals = append(wc.Vals, n)
+			}
+		}
+		wheres = append(wheres, wc)
+	}
 	m := roundTripRe.FindStringSubmatch(strings.TrimSpace(body))
 	if m == nil {
 		return nil, fmt.Errorf("%s: roundtrip: want `encode F decode G unroll N`", where)
 	}
 	n, _ := strconv.Atoi(m[3])
-	rt := &RoundTrip{Name: head, Props: props, Enc: m[1], Dec: m[2], Unroll: n, Where: where}
+	rt := &RoundTrip{Name: head, Props: props, Enc: m[1], Dec: m[2], Unroll: n, Where: wheres, WherePos: where}
 	if m[4] != "" {
 		v, err := strconv.ParseInt(m[4], 10, 64)
 		if err != nil {
@@ -115,6 +150,7 @@ type rtVal struct {
 	hi    int
 	idx   int
 	elems []rtVal
+	glob  *ssa.Global
 }
 
 type rtBuf struct{ id int }
@@ -124,6 +160,7 @@ type rtFrame struct {
 	env    map[ssa.Value]rtVal
 	cells  map[*ssa.Alloc]rtVal
 	visits map[*ssa.BasicBlock]int
+	pred   *ssa.BasicBlock // the block control came from (for phi)
 }
 
 type rtState struct {
@@ -133,11 +170,12 @@ type rtState struct {
 	writes   int
 	in       []bvVal
 	pos      int
-	over     bool            // a loop went beyond the unrolling
-	starved  bool            // the decoder asked for a byte beyond the input
-	panicked string          // index out of range etc.
-	side     []rtSide        // conditions that must hold on this path (bounds of symbolic slices ...)
-	filled   map[string]bool // symbolic slices (by length term) filled from the argument's bytes
+	over     bool             // a loop went beyond the unrolling
+	starved  bool             // the decoder asked for a byte beyond the input
+	panicked string           // index out of range etc.
+	fields   map[string]rtVal // integer / boolean fields of the receiver (by name): current values
+	side     []rtSide         // conditions that must hold on this path (bounds of symbolic slices ...)
+	filled   map[string]bool  // symbolic slices (by length term) filled from the argument's bytes
 }
 
 // rtSide: under the path condition at that point, neg must be unsatisfiable.
@@ -186,6 +224,12 @@ func (s *rtState) clone() *rtState {
 	for k := range s.filled {
 		n.filled[k] = true
 	}
+	if s.fields != nil {
+		n.fields = map[string]rtVal{}
+		for k, v := range s.fields {
+			n.fields[k] = v
+		}
+	}
 	for b, m := range s.bufs {
 		c := map[int]bvVal{}
 		for i, v := range m {
@@ -197,7 +241,7 @@ func (s *rtState) clone() *rtState {
 }
 
 func (f *rtFrame) clone() *rtFrame {
-	n := &rtFrame{fn: f.fn, env: map[ssa.Value]rtVal{}, cells: map[*ssa.Alloc]rtVal{}, visits: map[*ssa.BasicBlock]int{}}
+	n := &rtFrame{fn: f.fn, env: map[ssa.Value]rtVal{}, cells: map[*ssa.Alloc]rtVal{}, visits: map[*ssa.BasicBlock]int{}, pred: f.pred}
 	for k, v := range f.env {
 		n.env[k] = v
 	}
@@ -221,6 +265,10 @@ type rtExec struct {
 	unroll int
 	recv   *rtBuf
 	steps  int
+	// stateDecls: symbolic initial values of receiver fields read before written
+	// (name -> width; 0 = Bool); the same symbols start the encoder and the decoder
+	stateDecls map[string]int
+	tables     map[*ssa.Global]map[int64]int64 // package-level maps with constant contents (from init)
 }
 
 func rtInt(n int64, w int, signed bool) rtVal {
@@ -318,6 +366,17 @@ func (x *rtExec) from(f *rtFrame, b *ssa.BasicBlock, start int, st *rtState) []r
 					f.cells[a] = x.val(f, ins.Val)
 				default:
 					p := x.val(f, ins.Addr)
+					if p.k == rtFieldPtr && !strings.HasPrefix(p.name, "global ") {
+						// a field of the receiver
+						if st.fields == nil {
+							st.fields = map[string]rtVal{}
+						}
+						st.fields[p.name] = x.val(f, ins.Val)
+						continue
+					}
+					if p.k == rtOpaque {
+						continue // element of such an array
+					}
 					if p.k != rtBytePtr {
 						panic(unsupported("roundtrip: store through " + ins.Addr.String()))
 					}
@@ -335,7 +394,13 @@ func (x *rtExec) from(f *rtFrame, b *ssa.BasicBlock, start int, st *rtState) []r
 						if !ok {
 							// zero value of the cell's type
 							et := a.Type().Underlying().(*types.Pointer).Elem()
-							if isFloat(et) {
+							if isString(et) {
+								z := int64(0)
+								c = rtVal{k: rtStr, bv: bvVal{bvConst(0, 64), 64, true}, konst: &z}
+							} else if b, ok := et.Underlying().(*types.Basic); ok && b.Kind() == types.Bool {
+								f0 := false
+								c = rtVal{k: rtBool, b: "false", bk: &f0}
+							} else if isFloat(et) {
 								c = rtVal{k: rtBV, bv: bvVal{bvConst(0, 64), 64, false}}
 							} else if w, sg, isInt := bvTypeOf(et); isInt {
 								c = rtInt(0, w, sg)
@@ -351,6 +416,18 @@ func (x *rtExec) from(f *rtFrame, b *ssa.BasicBlock, start int, st *rtState) []r
 					p := x.val(f, ins.X)
 					switch p.k {
 					case rtFieldPtr:
+						if !strings.HasPrefix(p.name, "global ") {
+							if v, ok := x.loadField(st, p.name, ins.Type()); ok {
+								f.env[ins] = v
+								continue
+							}
+						}
+						if g, ok := ins.X.(*ssa.Global); ok {
+							if _, isMap := ins.Type().Underlying().(*types.Map); isMap {
+								f.env[ins] = rtVal{k: rtOpaque, name: "globalmap", glob: g}
+								continue
+							}
+						}
 						if it, ok := ins.Type().Underlying().(*types.Interface); ok && strings.HasPrefix(p.name, "global ") {
 							isErr := false
 							for i := 0; i < it.NumMethods(); i++ {
@@ -421,6 +498,19 @@ func (x *rtExec) from(f *rtFrame, b *ssa.BasicBlock, start int, st *rtState) []r
 					r = rtInt(rtWrap(*v.konst, w, sg), w, sg)
 				}
 				f.env[ins] = r
+			case *ssa.Phi:
+				k := -1
+				for i, p := range b.Preds {
+					if p == f.pred {
+						k = i
+					}
+				}
+				if k < 0 {
+					panic(unsupported("roundtrip: phi without a known predecessor"))
+				}
+				f.env[ins] = x.val(f, ins.Edges[k])
+			case *ssa.Lookup:
+				f.env[ins] = x.lookup(f, ins)
 			case *ssa.ChangeType:
 				f.env[ins] = x.val(f, ins.X)
 			case *ssa.ChangeInterface:
@@ -446,6 +536,10 @@ func (x *rtExec) from(f *rtFrame, b *ssa.BasicBlock, start int, st *rtState) []r
 				f.env[ins] = rtVal{k: rtFieldPtr, name: fld.Name()}
 			case *ssa.Slice:
 				base := x.val(f, ins.X)
+				if base.k == rtOpaque {
+					f.env[ins] = rtVal{k: rtOpaque, name: "slice"}
+					continue
+				}
 				lo, hi := 0, base.hi
 				if base.k == rtSlice {
 					lo = 0
@@ -487,9 +581,14 @@ func (x *rtExec) from(f *rtFrame, b *ssa.BasicBlock, start int, st *rtState) []r
 				f.env[ins] = rtVal{k: rtSlice, buf: base.buf, lo: off + lo, hi: off + hi}
 			case *ssa.IndexAddr:
 				s := x.val(f, ins.X)
+				if s.k == rtOpaque {
+					// an array the code builds for a variadic call (error formatting): not data
+					f.env[ins] = rtVal{k: rtOpaque, name: "elem"}
+					continue
+				}
 				iv := x.val(f, ins.Index)
 				if s.k != rtSlice || iv.konst == nil {
-					panic(unsupported("roundtrip: index " + ins.String()))
+					panic(unsupported("roundtrip: index " + ins.String() + " in " + f.fn.String()))
 				}
 				if *iv.konst < 0 || int(*iv.konst) >= s.hi-s.lo {
 					st.panicked = fmt.Sprintf("index out of range [%d] with length %d at %s", *iv.konst, s.hi-s.lo, x.e.pos(ins.Pos()))
@@ -536,6 +635,7 @@ func (x *rtExec) from(f *rtFrame, b *ssa.BasicBlock, start int, st *rtState) []r
 					}
 					break
 				}
+				f.pred = b
 				f2, st2 := f.clone(), st.clone()
 				st.pc = append(st.pc, c.b)
 				st2.pc = append(st2.pc, "(not "+c.b+")")
@@ -554,6 +654,7 @@ func (x *rtExec) from(f *rtFrame, b *ssa.BasicBlock, start int, st *rtState) []r
 		if next == nil {
 			panic(unsupported("roundtrip: block without successor in " + f.fn.String()))
 		}
+		f.pred = b
 		b, start = next, 0
 	}
 }
@@ -736,6 +837,22 @@ func (x *rtExec) call(f *rtFrame, ins *ssa.Call, st *rtState) []rtRet {
 		panic(unsupported("roundtrip: builtin " + b.Name()))
 	}
 	callee := cc.StaticCallee()
+	if callee != nil && callee.Name() == "NewTProtocolException" && len(cc.Args) == 1 {
+		// wraps a non-nil error into a non-nil error, maps nil to nil
+		if a := x.val(f, cc.Args[0]); a.k == rtErr || a.k == rtNilErr {
+			return []rtRet{{st: st, res: []rtVal{a}}}
+		}
+	}
+	if callee != nil && callee.Pkg != x.pkg && callee.Signature.Results().Len() == 1 && !strings.HasPrefix(callee.String(), "math.") && !strings.HasPrefix(callee.String(), "(encoding/binary.") {
+		if it, ok := callee.Signature.Results().At(0).Type().Underlying().(*types.Interface); ok {
+			for i := 0; i < it.NumMethods(); i++ {
+				if it.Method(i).Name() == "Error" {
+					// a dependency function that builds an error value (fmt.Errorf, errors.New)
+					return []rtRet{{st: st, res: []rtVal{{k: rtErr, name: callee.String()}}}}
+				}
+			}
+		}
+	}
 	if callee != nil {
 		switch callee.String() {
 		case "math.Float64bits", "math.Float64frombits":
@@ -834,6 +951,170 @@ func (x *rtExec) call(f *rtFrame, ins *ssa.Call, st *rtState) []rtRet {
 	return x.run(callee, args, st)
 }
 
+// loadField: the current value of an integer or boolean field of the receiver; a
+// field read before it is written gets a symbolic initial value shared by the
+// encoder and the decoder run.
+func (x *rtExec) loadField(st *rtState, name string, t types.Type) (rtVal, bool) {
+	if v, ok := st.fields[name]; ok {
+		return v, true
+	}
+	if w, sg, ok := bvTypeOf(t); ok {
+		sym := "st_" + name
+		x.stateDecls[sym] = w
+		return rtVal{k: rtBV, bv: bvVal{sym, w, sg}}, true
+	}
+	if b, ok := t.Underlying().(*types.Basic); ok && b.Kind() == types.Bool {
+		sym := "st_" + name
+		x.stateDecls[sym] = 0
+		return rtVal{k: rtBool, b: sym}, true
+	}
+	return rtVal{}, false
+}
+
+// lookup: m[k] on a package-level map whose contents are the constant entries
+// stored by the package's init function (missing key: zero).
+func (x *rtExec) lookup(f *rtFrame, ins *ssa.Lookup) rtVal {
+	m := x.val(f, ins.X)
+	if m.glob == nil || ins.CommaOk {
+		panic(unsupported("roundtrip: lookup " + ins.String()))
+	}
+	tab, ok := x.tables[m.glob]
+	if !ok {
+		tab = x.scanTable(m.glob)
+		x.tables[m.glob] = tab
+	}
+	if tab == nil {
+		panic(unsupported("roundtrip: contents of " + m.glob.Name() + " are not constant entries of init"))
+	}
+	k := x.val(f, ins.Index)
+	w, sg, ok := bvTypeOf(ins.Type())
+	if k.k != rtBV || !ok {
+		panic(unsupported("roundtrip: lookup key/value types"))
+	}
+	var keys []int64
+	for kk := range tab {
+		keys = append(keys, kk)
+	}
+	sort.Slice(keys, func(i, j int) bool { return keys[i] < keys[j] })
+	t := bvConst(0, w)
+	for _, kk := range keys {
+		t = "(ite (= " + k.bv.s + " " + bvConst(kk, k.bv.w) + ") " + bvConst(tab[kk], w) + " " + t + ")"
+	}
+	return rtVal{k: rtBV, bv: bvVal{t, w, sg}}
+}
+
+// scanTable: the constant entries init stores into the map assigned to g.
+func (x *rtExec) scanTable(g *ssa.Global) map[int64]int64 {
+	var mk ssa.Value
+	for _, mem := range x.pkg.Members {
+		fn, ok := mem.(*ssa.Function)
+		if !ok || !strings.HasPrefix(fn.Name(), "init") {
+			continue
+		}
+		for _, b := range fn.Blocks {
+			for _, ins := range b.Instrs {
+				if st, ok := ins.(*ssa.Store); ok && st.Addr == ssa.Value(g) {
+					if mk != nil {
+						return nil // assigned twice
+					}
+					mk = st.Val
+				}
+			}
+		}
+	}
+	if _, ok := mk.(*ssa.MakeMap); !ok {
+		return nil
+	}
+	out := map[int64]int64{}
+	for _, ref := range *mk.(*ssa.MakeMap).Referrers() {
+		switch u := ref.(type) {
+		case *ssa.MapUpdate:
+			kc, ok1 := u.Key.(*ssa.Const)
+			vc, ok2 := u.Value.(*ssa.Const)
+			if !ok1 || !ok2 || kc.Value == nil || vc.Value == nil {
+				return nil
+			}
+			k, e1 := constant.Int64Val(constant.ToInt(kc.Value))
+			v, e2 := constant.Int64Val(constant.ToInt(vc.Value))
+			if !e1 || !e2 {
+				return nil
+			}
+			out[k] = v
+		case *ssa.Store, *ssa.DebugRef:
+		default:
+			return nil
+		}
+	}
+	// nothing else may assign the variable or update the map it holds
+	for fn := range x.e.allFuncs {
+		if fn.Pkg != x.pkg || strings.HasPrefix(fn.Name(), "init") {
+			continue
+		}
+		for _, b := range fn.Blocks {
+			for _, ins := range b.Instrs {
+				switch u := ins.(type) {
+				case *ssa.Store:
+					if u.Addr == ssa.Value(g) {
+						return nil
+					}
+				case *ssa.MapUpdate:
+					if ld, ok := u.Map.(*ssa.UnOp); ok && ld.X == ssa.Value(g) {
+						return nil
+					}
+				}
+			}
+		}
+	}
+	return out
+}
+
+// whereTerms: the preconditions on one named integer.
+func whereTerms(ws []rtWhere, name string, v bvVal) []string {
+	var out []string
+	for _, w := range ws {
+		if w.Name != name {
+			continue
+		}
+		if w.Range {
+			le, ge := "bvsle", "bvsge"
+			if !v.signed {
+				le, ge = "bvule", "bvuge"
+			}
+			out = append(out, "("+ge+" "+v.s+" "+bvConst(w.Lo, v.w)+")", "("+le+" "+v.s+" "+bvConst(w.Hi, v.w)+")")
+			continue
+		}
+		var alts []string
+		for _, n := range w.Vals {
+			alts = append(alts, "(= "+v.s+" "+bvConst(n, v.w)+")")
+		}
+		out = append(out, "(or "+strings.Join(alts, " ")+" false)")
+	}
+	return out
+}
+
+// stateDeclText: declarations (and where-preconditions) of the symbolic initial
+// values of receiver fields that were read before being written.
+func (x *rtExec) stateDeclText(ws []rtWhere) string {
+	var names []string
+	for n := range x.stateDecls {
+		names = append(names, n)
+	}
+	sort.Strings(names)
+	var sb strings.Builder
+	for _, n := range names {
+		w := x.stateDecls[n]
+		if w == 0 {
+			sb.WriteString("(declare-fun " + n + " () Bool)\n")
+			continue
+		}
+		sb.WriteString(fmt.Sprintf("(declare-fun %s () (_ BitVec %d))\n", n, w))
+		for _, t := range whereTerms(ws, strings.TrimPrefix(n, "st_"), bvVal{n, w, true}) {
+			sb.WriteString("(assert " + t + ")\n")
+		}
+	}
+	return sb.String()
+}
+
 func isByteSlice(t types.Type) bool {
 	sl, ok := t.Underlying().(*types.Slice)
 	if !ok {
@@ -863,7 +1144,7 @@ func (e *Engine) verifyRoundTrip(ps *PkgSpec, rt *RoundTrip) (res *FuncResult) {
 		res.Undecided = "roundtrip: encode/decode function not found in the current source"
 		return res
 	}
-	x := &rtExec{e: e, pkg: enc.Pkg, unroll: rt.Unroll, recv: &rtBuf{id: 1}}
+	x := &rtExec{e: e, pkg: enc.Pkg, unroll: rt.Unroll, recv: &rtBuf{id: 1}, stateDecls: map[string]int{}, tables: map[*ssa.Global]map[int64]int64{}}
 	var decls, pre []string
 	var args []rtVal
 	var dataArgs []rtVal
@@ -874,6 +1155,7 @@ func (e *Engine) verifyRoundTrip(ps *PkgSpec, rt *RoundTrip) (res *FuncResult) {
 			v := rtVal{k: rtBV, bv: bvVal{name, w, sg}}
 			args = append(args, v)
 			dataArgs = append(dataArgs, v)
+			pre = append(pre, whereTerms(rt.Where, p.Name(), v.bv)...)
 		} else if isFloat(p.Type()) {
 			// a float64: its IEEE bit pattern (the code only moves the bits around)
 			name := "arg_bits_" + p.Name()
@@ -896,17 +1178,31 @@ func (e *Engine) verifyRoundTrip(ps *PkgSpec, rt *RoundTrip) (res *FuncResult) {
 			args = append(args, rtVal{k: rtOpaque, name: p.Name()})
 		}
 	}
-	if len(dataArgs) != 1 {
-		panic(unsupported("roundtrip: encoder with exactly one integer or string argument expected"))
+	// several data arguments: the integer ones are compared, in order, with the
+	// decoder's integer results; a string among them is not part of the comparison
+	// (the compact protocol does not write field names)
+	var bvArgs []rtVal
+	for _, a := range dataArgs {
+		if a.k == rtBV {
+			bvArgs = append(bvArgs, a)
+		}
+	}
+	multi := len(dataArgs) > 1
+	if len(dataArgs) == 0 || (multi && len(bvArgs) == 0) {
+		panic(unsupported("roundtrip: encoder without a data argument"))
 	}
 	arg := dataArgs[0]
+	if multi {
+		arg = bvArgs[0]
+	}
 	base := pkgBase(ps.Pkg) + ".roundtrip/" + rt.Name
 	add := func(clause string, pc []string, negGoal string, trail ...string) {
-		ob := &Obligation{Kind: "roundtrip", Clause: clause, Pos: rt.Where, Props: rt.Props, Trail: trail}
+		ob := &Obligation{Kind: "roundtrip", Clause: clause, Pos: rt.WherePos, Props: rt.Props, Trail: trail}
 		ob.Name = base + "." + clause
 		ob.Func = "roundtrip " + rt.Name
 		var sb strings.Builder
 		sb.WriteString("(set-option :produce-models true)\n(set-logic QF_BV)\n" + strings.Join(decls, "\n") + "\n")
+		sb.WriteString(x.stateDeclText(rt.Where))
 		for _, p := range pre {
 			sb.WriteString("(assert " + p + ")\n")
 		}
@@ -956,6 +1252,9 @@ func (e *Engine) verifyRoundTrip(ps *PkgSpec, rt *RoundTrip) (res *FuncResult) {
 			lens = append(lens, strconv.Itoa(k))
 		}
 		wantWrites := 1
+		if multi {
+			wantWrites = ep.st.writes // several writes are fine for composite headers
+		}
 		if arg.k == rtStr {
 			// the length prefix, then the bytes of the string, in this order
 			wantWrites = 2
@@ -976,10 +1275,13 @@ func (e *Engine) verifyRoundTrip(ps *PkgSpec, rt *RoundTrip) (res *FuncResult) {
 			add(fmt.Sprintf("longest_encoding_at_%d", *rt.Longest), ep.st.pc, "(= "+a.s+" "+bvConst(*rt.Longest, a.w)+")", fmt.Sprintf("encoder path of length %d", k))
 		}
 		// cover: the path is feasible (vacuity guard)
-		cv := &Obligation{Kind: "cover", Cover: true, Clause: "len" + strconv.Itoa(k), Pos: rt.Where, Props: rt.Props}
+		cv := &Obligation{Kind: "cover", Cover: true, Clause: "len" + strconv.Itoa(k), Pos: rt.WherePos, Props: rt.Props}
 		cv.Name = base + ".cover.len" + strconv.Itoa(k)
+		if len(rt.Where) > 0 {
+			cv.Name = base + ".cover" // preconditions may exclude whole paths: one feasible path suffices
+		}
 		cv.Func = "roundtrip " + rt.Name
-		cv.Query = "(set-logic QF_BV)\n" + strings.Join(decls, "\n") + "\n"
+		cv.Query = "(set-logic QF_BV)\n" + strings.Join(decls, "\n") + "\n" + x.stateDeclText(rt.Where)
 		for _, p := range append(append([]string{}, pre...), ep.st.pc...) {
 			cv.Query += "(assert " + p + ")\n"
 		}
@@ -1007,6 +1309,72 @@ func (e *Engine) verifyRoundTrip(ps *PkgSpec, rt *RoundTrip) (res *FuncResult) {
 			case dp.st.panicked != "":
 				add(clause, pc, "true", "decoder: "+dp.st.panicked)
 			default:
+				if multi {
+					var rbv []rtVal
+					for _, r := range dp.res {
+						if r.k == rtBV {
+							rbv = append(rbv, r)
+						}
+					}
+					db, _ := nbytes(dp.st.in[:dp.st.pos])
+					trail := fmt.Sprintf("decoder consumed %d of %d protocol bytes", db, k)
+					if db != k || len(rbv) != len(bvArgs) || dp.res[len(dp.res)-1].k != rtNilErr {
+						add(clause, pc, "true", trail+" (or reports an error, or returns other results)")
+						continue
+					}
+					var conj []string
+					for i := range rbv {
+						if rbv[i].bv.w != bvArgs[i].bv.w {
+							panic(unsupported("roundtrip: decoder result width differs from the encoder argument"))
+						}
+						conj = append(conj, "(= "+rbv[i].bv.s+" "+bvArgs[i].bv.s+")")
+					}
+					// the receiver state the two sides keep must stay in step: every integer
+					// field either side wrote has the same final value on both sides (a side
+					// that never wrote it still has the common initial value)
+					seen := map[string]bool{}
+					var names []string
+					for n := range ep.st.fields {
+						if !seen[n] {
+							seen[n] = true
+							names = append(names, n)
+						}
+					}
+					for n := range dp.st.fields {
+						if !seen[n] {
+							seen[n] = true
+							names = append(names, n)
+						}
+					}
+					sort.Strings(names)
+					for _, n := range names {
+						ev, eok := ep.st.fields[n]
+						dv, dok := dp.st.fields[n]
+						ref := ev
+						if !eok {
+							ref = dv
+						}
+						if ref.k != rtBV {
+							continue
+						}
+						initial := rtVal{k: rtBV, bv: bvVal{"st_" + n, ref.bv.w, ref.bv.signed}}
+						if !eok || !dok {
+							x.stateDecls["st_"+n] = ref.bv.w
+						}
+						if !eok {
+							ev = initial
+						}
+						if !dok {
+							dv = initial
+						}
+						if ev.k == rtBV && dv.k == rtBV && dv.bv.w == ev.bv.w {
+							conj = append(conj, "(= "+dv.bv.s+" "+ev.bv.s+")")
+							trail += "; field " + n + " in step"
+						}
+					}
+					add(clause, pc, "(not (and "+strings.Join(conj, " ")+"))", trail)
+					continue
+				}
 				if len(dp.res) < 1 || (dp.res[0].k != rtBV && dp.res[0].k != rtStr) || dp.res[0].k != arg.k {
 					panic(unsupported("roundtrip: decoder result"))
 				}
